@@ -250,6 +250,7 @@ func runRoundTrip(c *mon.Case, p *rtParams) {
 
 func roundtrip(x *mon.Ctx, cv enc.Curve) {
 	selfTest(x)
+	validateShapes(x, cv)
 	name := cvName(cv)
 	reps := x.Scale(1, 30)
 	if !isSM2(cv) {
@@ -368,15 +369,21 @@ func special(x *mon.Ctx, cv enc.Curve) {
 		expect func(x1, y1, x2, y2 *big.Int) bool
 	}
 	lz := func(v *big.Int) bool { return v.BitLen() <= 248 }
+	zz := func(v *big.Int) bool { return v.BitLen() <= 240 }
 	groups := []grp{
 		{"x1-leading-zero", sp.x1lz, false, func(x1, y1, x2, y2 *big.Int) bool { return lz(x1) }},
 		{"y1-leading-zero", sp.y1lz, false, func(x1, y1, x2, y2 *big.Int) bool { return lz(y1) }},
 		{"x2-leading-zero", sp.x2lz, true, func(x1, y1, x2, y2 *big.Int) bool { return lz(x2) }},
 		{"y2-leading-zero", sp.y2lz, true, func(x1, y1, x2, y2 *big.Int) bool { return lz(y2) }},
+		{"x2-two-leading-zeros", sp.x2zz, true, func(x1, y1, x2, y2 *big.Int) bool { return zz(x2) }},
+		{"y2-two-leading-zeros", sp.y2zz, true, func(x1, y1, x2, y2 *big.Int) bool { return zz(y2) }},
 	}
-	for _, g := range groups {
-		for _, kv := range g.ks {
+	for gi, g := range groups {
+		for ki, kv := range g.ks {
 			for li, n := range lens {
+				if gi >= 4 && !x.Thorough() && li%2 != ki%2 {
+					continue // the two-zero groups: every other length per scalar in the quick tier
+				}
 				content := []string{"random", "mask", "mask-head"}[(li+int(kv))%3]
 				c := x.Begin("special curve=%s %s k=%d len=%d content=%s", name, g.label, kv, n, content)
 				if c == nil {
@@ -400,6 +407,8 @@ func special(x *mon.Ctx, cv enc.Curve) {
 			}
 		}
 	}
+
+	shapeCases(x, cv, lens, 3)
 
 	// all-zero mask: A5 restarts, B4 refuses
 	type zk struct {
